@@ -761,7 +761,11 @@ def real_traversals(root, enc, queries):
         res = []
 
         def fn(v, state):
-          res.append([path_proto(state.current_path), [path_proto(p) for p in state.get_all_paths()]])
+          got = state.get_all_paths()
+          res.append([path_proto(state.current_path), [path_proto(p) for p in got]])
+          # the answer belongs to the caller: editing it must not change later answers
+          if isinstance(got, list):
+            del got[:]
           for _ in state.yield_map_child_values(v, ignore_leaves=True):
             pass
         tr = daglish.BasicTraversal(fn, root)
